@@ -56,7 +56,7 @@ func srcName(v ssa.Value) string {
 
 // C14: metadata precedence and opt-out (combinator skeleton).
 func C14(p *core.Program, r *core.Report) {
-	r.Explanation = "P1: in markup.NewParser the accessor list is built in the order OpenGraph (only under err==nil && parser!=nil), schema.org, IE reading view (reachability/guard-cut on the appends). P2: opengraph.NewParser's decision list rejects (nil parser, error) when title, type, url or the image list is empty and accepts otherwise. P3: each of the ten getters of markup.Parser is a forward range over the accessor list returning the first non-empty answer of the same-named Accessor method (decision-list conformance per getter). P4: MarkupInfo returns the zero record whenever OptOut() holds; a filled record is reachable only through the OptOut()==false edge. P5: every field of the record is filled from the same-named getter/field. P6: the opt-out tag is searched among all meta elements of the whole root (name IE_RM_OFF, content true, case-insensitively) and all three parsers get that same root. P7: Apply stores Result.MarkupInfo once, as the whole record returned by the markup parser, and writes no field of it afterwards. P8: a declared OpenGraph prefix is stored only under the entry of its own namespace (og for the bare namespace, profile, article). P9: nothing below Apply rewrites the document the markup parsers read (effect analysis, shared with C10-M1). P10: og:type is in the property table before the first type-dependent parser (profile/article) runs. P11: a property is stored under a table name only if its name is that name as a whole (prefix matching only for names ending in a colon). P12: every schema.org type the microdata parser recognises is recognised under both URL schemes, http://schema.org/ and https://schema.org/ (the type table read from the code, the normalisation found on the path from the itemtype attribute to the table lookup). P13: C04-V5 shared - the text values the sources read from elements are InnerText renderings, whose collector tests the visibility of every element, the one asked for included, and whose results are only made from what the collector gathered."
+	r.Explanation = "P1: in markup.NewParser the accessor list is built in the order OpenGraph (only under err==nil && parser!=nil), schema.org, IE reading view (reachability/guard-cut on the appends). P2: opengraph.NewParser's decision list rejects (nil parser, error) when title, type, url or the image list is empty and accepts otherwise. P3: each of the ten getters of markup.Parser is a forward range over the accessor list returning the first non-empty answer of the same-named Accessor method (decision-list conformance per getter). P4: MarkupInfo returns the zero record whenever OptOut() holds; a filled record is reachable only through the OptOut()==false edge. P5: every field of the record is filled from the same-named getter/field. P6: the opt-out tag is searched among all meta elements of the whole root (name IE_RM_OFF, content true, case-insensitively) and all three parsers get that same root. P7: Apply stores Result.MarkupInfo once, as the whole record returned by the markup parser, and writes no field of it afterwards. P8: a declared OpenGraph prefix is stored only under the entry of its own namespace (og for the bare namespace, profile, article). P9: nothing below Apply rewrites the document the markup parsers read (effect analysis, shared with C10-M1). P10: og:type is in the property table before the first type-dependent parser (profile/article) runs. P11: a property is stored under a table name only if its name is that name as a whole (prefix matching only for names ending in a colon). P12: every schema.org type the microdata parser recognises is recognised under both URL schemes, http://schema.org/ and https://schema.org/ (the type table read from the code, the normalisation found on the path from the itemtype attribute to the table lookup). P13: C04-V5 shared - the text values the sources read from elements are InnerText renderings, whose collector tests the visibility of every element, the one asked for included, and whose results are only made from what the collector gathered. P14: sibling agreement of the getImage implementations of package schemaorg - an image record is only built where its URL was found non-empty (a record without an address would count as an image and hide the images of the sources below it)."
 	r.NotCovered = "the three parsers' internals (nested microdata, type dependent OpenGraph properties, IE meta tags), i.e. what each source reports; only the combination of the sources is decided."
 
 	// ---- P1
@@ -373,6 +373,35 @@ func C14(p *core.Program, r *core.Report) {
 	// bylines, item properties) are InnerText renderings: hidden parts are left out only because
 	// InnerText's collector tests every element, the one asked for included (C04-V5 shared)
 	checkInnerTextCollector(p, r, "P13")
+	// ---- P14: an image record has an address. The first source with a non-empty image list
+	// wins (P3), so a record without a URL - an ImageObject that only gives a caption or a
+	// size - would hide the images of the sources below it. Sibling agreement over the getImage
+	// implementations of package schemaorg: a record is only built where its URL was found
+	// non-empty (ArticleItem.getImage has always returned nil otherwise).
+	{
+		c := core.NewCanon(p)
+		n := 0
+		for _, f := range p.ModFunctions(false) {
+			if core.FnPkgPath(f) != core.ExpandKey("mod/internal/markup/schemaorg") || f.Name() != "getImage" || f.Signature.Recv() == nil {
+				continue
+			}
+			fn := p.Inlined(f)
+			for _, a := range allocsOfAny(fn) {
+				nm := core.NamedOf(a.Type().(*types.Pointer).Elem())
+				if nm == nil || nm.Obj().Name() != "MarkupImage" {
+					continue
+				}
+				for _, v := range fieldStores(a)["URL"] {
+					n++
+					vs := c.Of(v)
+					cut, m := core.CutAtoms(p, fn, regexp.MustCompile(`^`+regexp.QuoteMeta(vs)+` == ""$`), false)
+					ok := len(m) > 0 && !core.InstrReachable(fn, cut, a)
+					r.Add("P14", core.ShortKey(f)+": an image record is built only for a non-empty URL", p.Pos(a.Pos()), ok, "URL = "+shortVal(vs)+"; the record is reachable without the URL having been found non-empty (it would count as an image and hide the images of the sources below)")
+				}
+			}
+		}
+		r.Add("P14", "getImage implementations of package schemaorg examined", "", n >= 2, fmt.Sprintf("%d image records", n))
+	}
 
 	// ---- P9: what the three markup parsers read is the page as the caller gave it: nothing below
 	// Apply rewrites the caller's document (the converter works on a clone) - effect analysis,
